@@ -153,7 +153,7 @@ CHECKS["C08"] = dict(
          "rules in the code's order, per-signer state, both envelope eras) over alphabets of message classes that include every degenerate "
          "field class (round 0 / 2^32 / 2^63 / 2^64-1, slot 0 / 2^62+s / 2^63 / 2^64-1, empty / zero / non-member / unsorted / duplicate / 13 / 14 "
          "signers, unknown types and roles, malformed and nested justifications, zero signatures, six registry classes, wrong topic / domain, "
-         "seven envelope classes). TLC checks totality on every edge of seven family configs exhaustively; a Go driver concretises every "
+         "seven envelope classes). TLC checks totality on every edge of ten family configs exhaustively; a Go driver concretises every "
          "(accepted prefix, class, time point) up to depth 2-4 with real SSZ/JSON encoding, real BLS/RSA keys and a re-based-genesis clock and "
          "passes it to the real ValidatePubsubMessage under recover(), a hang watchdog and an allocation ceiling; every recorded call is "
          "validated by TLC (MsgValidationTrace). Byte half: seeded perturbations (truncation at field boundaries, offset/length words, extreme "
@@ -161,7 +161,7 @@ CHECKS["C08"] = dict(
          "queue.DecodeSSVMessage, NodeInfo/SignedNodeInfo Consume+UnmarshalRecord, NodeMetadata.Decode, Subnets.FromString.",
     design_ref="DESIGN.md section 5 C08, section 7",
     note="The byte-string half is EXPLORATION seeded from the model (arbitrary byte strings are not enumerated); messages above a few KiB are "
-         "not generated; allocation ceiling 96 MiB per call, hang = 2 s (10 s bulk). Shares one run with C09 (cached under .work/msgval).",
+         "not generated; allocation ceiling 96 MiB per call; hang = a call slower than 2 s that is that slow again in three immediate repeats (a stall of a loaded machine is not a hang), or no return within 30 s in bulk mode. Shares one run with C09 (cached under .work/msgval).",
     technique="TLA+ spec + TLC exhaustive check; implementation-driven sweep of the real validator over the spec alphabet with TLC trace "
               "validation; attack traces; model-seeded byte perturbation of validator and decoders",
 )
@@ -169,9 +169,13 @@ CHECKS["C09"] = dict(
     category="model_checking",
     text="MsgValidation.tla holds two definitions: the operational verdict (rules in the code's order with the real rule texts and the "
          "per-signer state update) and the declarative GossipBreak/GossipOK written from the property statement over the set of previously "
-         "accepted messages. TLC checks accept => GossipOK (AcceptSound), totality and StateSound on every edge of seven family configs "
-         "(single-signer consensus, deep core interplay, time windows of three roles, partial signatures, N=7, decided messages, both envelope "
-         "eras); 18 weakened-guard configs give attack traces. The real validator is swept over the same alphabets after every accepted prefix "
+         "accepted messages. TLC checks accept => GossipOK (AcceptSound), totality and StateSound on every edge of ten family configs "
+         "(single-signer consensus, deep core interplay, time windows of three roles, the round and slot windows of all five consensus "
+         "roles over every boundary of the estimated-round step function - rounds 0..max+2 x reception times +-0.5 s/+-1.5 s around "
+         "2,4,...,16,136,256,376 s, slot start, early and late edges, clock arithmetic in milliseconds with the code's constants "
+         "(roundwin) -, boundary rounds/heights for committees 4 and 7, partial signatures, N=7, decided messages, both envelope eras; "
+         "ClockRobust: time points in the last second of a slot are only used where the verdict does not depend on the code's truncated "
+         "clock); 18 weakened-guard configs give attack traces. The real validator is swept over the same alphabets after every accepted prefix "
          "(depth 2-4) and every call is validated by TLC (0 mismatches); graph cover, simulated behaviours and attack traces are replayed with "
          "per-step comparison of class and Error.Text(). The verdict comes only from valkit.Monitor: the statement of C09 evaluated on the "
          "concrete accepted bytes (own SSZ decode, own RSA verification, own leader/window arithmetic) and the concrete history. Thorough: "
@@ -180,7 +184,7 @@ CHECKS["C09"] = dict(
     note="Exhaustive only for the stated alphabets (<= 2 tracked single signers, listed slot/round/time classes, committee 4 and 7). The monitor "
          "asserts exactly the statement: full data on prepares/commits, decided-message limits and signer/envelope-operator identity are not "
          "asserted. Named deviations PartialWindow / OverflowGuard are selected by probing the real validator. Known finding "
-         "accepted:partial-sig-outside-slot-window (KNOWN-FINDING, exit 0). Clock-dependent clauses are skipped for calls slower than 300 ms.",
+         "accepted:partial-sig-outside-slot-window (KNOWN-FINDING, exit 0). Clock-dependent clauses are skipped for calls slower than 300 ms. Time points are whole seconds + 0.5 s; the gate's boundaries are whole seconds.",
     technique="TLA+ spec with operational and declarative definitions + TLC exhaustive check; sweep of the real validator with TLC trace "
               "validation; attack traces; independent concrete-bytes monitor; concurrent batches under -race",
 )
